@@ -109,6 +109,21 @@ Theorem C16_registry_prefix_refuted :
     get_node m' (name_of (hp s') 3) = None.
 Proof. exists ex_store, ex_model. vm_compute. repeat split; try reflexivity. repeat constructor; simpl; intuition discriminate. Qed.
 
+(* the hypothesis "copied names distinct" of C16_copy_supports_ops is necessary (open finding copy:renamed-name-collision):
+   __setstate__ renames a registered name but never registers the new one, so a model holding node "a" (registered) and a
+   deep copy of it ("a-(copy)", not registered) is copied to a model with two nodes named "a-(copy)" and one registry key *)
+Definition ex_store2 : store nat nat :=
+  mkStore (fun j => match j with 0 => Some (ex_cell 1 "a" 10 []) | 1 => Some (ex_cell 1 "a-(copy)" 10 []) | _ => None end)
+          2 [(1, "a")].
+Theorem C16_name_collision_refuted :
+  exists (s : store nat nat) (m : mdl), mreg m = init_registry (hp s) (mnodes m) /\ NoDup (map (name_of (hp s)) (mnodes m)) /\
+    let '(s', m', ren) := deepcopy_model s m in
+    map (name_of (hp s')) (mnodes m') = ["a-(copy)"; "a-(copy)"] /\ named_ops_defined (hp s') m' = false.
+Proof.
+  exists ex_store2, (mkMdl 0 "m" [0; 1] (init_registry (hp ex_store2) [0; 1]) [(0, 1)]). vm_compute.
+  repeat split; try reflexivity. repeat constructor; simpl; intuition discriminate.
+Qed.
+
 (* Node.copy shares the feedback sender: after r2 = r.copy(), cell 1 (the readout) is the sender of both *)
 Example C16_node_copy_shares_sender :
   match node_copy ex_store 0 "res2"%string false with
@@ -177,6 +192,7 @@ Print Assumptions C16_original_unaffected.
 Print Assumptions C16_node_copy.
 Print Assumptions C16_copy_supports_ops.
 Print Assumptions C16_registry_prefix_refuted.
+Print Assumptions C16_name_collision_refuted.
 Print Assumptions C16_load_compat_equiv.
 Print Assumptions C16_load_compat_step.
 Print Assumptions C16_row_vector_convention.
